@@ -10,7 +10,8 @@ numerators G_i and the probe (hence W) are captured from single-pixel calls of t
 Property predicates evaluated on the implementation (the failing-input search): batch invariance
 for every b in 1..num_bf, linearity in the stack, sub-mask recombination (single-pass kernels,
 aperture weights), the two parallax limits against independent closed forms, alias table,
-repeat-call determinism."""
+repeat-call determinism, and call histories on one object (plain call / calls with per-call overrides /
+plain call again == first == fresh object; zero-aberration parallax limit after override calls)."""
 import math
 
 import numpy as np
@@ -774,6 +775,100 @@ def run_crop_cases(ctx, rng):
 
 
 # ---------------------------------------------------------------------------------------
+# histories on ONE object: the result is a function of (stack, mask, hyper-parameters) only, not of earlier calls
+
+def gen_history(rng, idx):
+    case = gen_case(rng, idx)
+    lam = wavelength(case["E"])
+    amax = case["semiangle"] * 1e-3
+    kind = "prlx-zero" if idx % 3 == 0 else "generic"
+    if kind == "prlx-zero":     # the analytic limit is evaluated AFTER calls that overrode the aberrations
+        case.update({"kernel": "prlx", "alias": rand_case_name(rng, rng.choice(ALIASES["prlx"])), "ab": {}, "ab_kind": "none",
+                     "flip": False, "ql": None, "qh": None})
+    n = len(case["sub"]) if case["sub"] is not None else len(case["pix"])
+    steps = []
+    for _ in range(rng.randint(1, 3)):
+        c10 = float(np.float32(rng.choice([-1, 1]) * rng.uniform(1.0, 4.0) * lam / (amax * amax)))
+        c12 = float(np.float32(rng.choice([-1, 1]) * rng.uniform(1.0, 3.0) * lam / (amax * amax)))
+        phi = float(np.float32(rng.uniform(-1.5, 1.5)))
+        ab = rng.choice([{"C10": c10}, {"defocus": c10}, {"C12": c12, "phi12": phi}, {"astigmatism": c12, "astigmatism_angle": phi},
+                         {"C10": c10, "C12": c12, "phi12": phi}, {"C30": float(np.float32(c10 / (amax * amax)))}])
+        st = {"override_aberration_coefs": ab}
+        if rng.chance(0.5):
+            st["override_rotation_angle"] = rng.uniform(-3.1, 3.1)
+        if rng.chance(0.5):
+            st["deconvolution_kernel"] = rand_case_name(rng, rng.choice([a for al in ALIASES.values() for a in al]))
+        if rng.chance(0.4):
+            st["upsampling_factor"] = rng.randint(1, 3)
+        if rng.chance(0.3):
+            st["q_lowpass"] = rng.uniform(0.4, 1.2) * 0.5 / max(case["sx"], case["sy"])
+        if rng.chance(0.3):
+            st["parallax_flip_phase"] = rng.chance(0.5)
+        if rng.chance(0.3):
+            st["matched_filter_norm_epsilon"] = rng.choice([0.01, 1.0])
+        if rng.chance(0.3):
+            st["full_mask"] = True
+        st["max_batch_size"] = rng.randint(1, n)
+        steps.append(st)
+    return {"history": {"kind": kind, "steps": steps, "b": rng.randint(1, n)}, **case}
+
+
+def run_history(ctx, hc):
+    case = {k: v for k, v in hc.items() if k != "history"}
+    h = hc["history"]
+    kernel = case["kernel"]
+    r, c = case["scan"]
+    n_full = len(case["pix"])
+    stack = gen_stack(case["stack_seed"], n_full, r, c, case["stack_kind"])
+    dp = make_dp(case, stack)
+    sub = case["sub"] if case["sub"] is not None else list(range(n_full))
+    submask = submask_array(dp, sub) if case["sub"] is not None else None
+    n = len(sub)
+    R0 = recon(dp, case, bf_mask=submask, b=h["b"]).reshape(n, -1)
+    for st in h["steps"]:
+        kw = {k: v for k, v in st.items() if k != "full_mask"}
+        recon(dp, case, bf_mask=None if st.get("full_mask") else submask, b=kw.pop("max_batch_size"), **kw)
+    R2 = recon(dp, case, bf_mask=submask, b=h["b"]).reshape(n, -1)
+    fresh = make_dp(case, stack)
+    R3 = recon(fresh, case, bf_mask=submask_array(fresh, sub) if case["sub"] is not None else None, b=h["b"]).reshape(n, -1)
+    ii, jj = __import__("torch").nonzero(dp.bf_mask, as_tuple=True)
+    pix = [(int(ii[s]), int(jj[s])) for s in sub]
+    wts, _ = aperture_weights(case, tuple(int(x) for x in dp.gpts), pix)
+    W = max(sum(wts), 1e-30)
+    dev = stack[sub].astype(np.float64) - stack[sub].astype(np.float64).mean(axis=(1, 2), keepdims=True)
+    floor = 0.05 * maxabs(dev) / W
+    ctx.count()
+    ctx.dist[f"history:{h['kind']}-{kernel}-{len(h['steps'])}steps"] += 1
+    for name, other in (("the same call before the override calls", R0), ("a fresh object", R3)):
+        ok, e = close(R2, other, TOL_BATCH, floor)
+        ctx.stat_max("history_rel", e)
+        if not ok:
+            ctx.pred_fail(f"history-{kernel}", "reconstruct() after calls with per-call overrides differs from " + name +
+                          " (the result depends on the call history of the object)", hc,
+                          observed={"rel_diff": e, **summarize(R2)}, required=summarize(other))
+            break
+    if h["kind"] == "prlx-zero":
+        u = case["u"]
+        want = np.zeros((u * r, u * c))
+        for t in range(n):
+            want[::u, ::u] += dev[t]
+        want = (want / W).ravel()
+        err = maxabs(R2.sum(axis=0) - want) / max(float(np.abs(dev).sum(axis=0).max()) / W, 1e-30)
+        ctx.stat_max("history_parallax_zero_rel", err)
+        ctx.count()
+        if not err <= TOL_LIN:
+            ctx.pred_fail("history-prlx-zero", "after calls that overrode the aberrations, the zero-aberration parallax "
+                          "reconstruction != sum of mean-subtracted virtual images / aperture weight", hc,
+                          observed={"rel_diff": err, **summarize(R2.sum(axis=0))}, required=summarize(want))
+
+
+def run_histories(ctx, rng):
+    for idx in range(ctx.n(10, 60)):
+        hc = gen_history(rng.fork(idx), idx)
+        guarded(ctx, hc, run_history, ctx, hc)
+
+
+# ---------------------------------------------------------------------------------------
 # alias table
 
 def run_aliases(ctx, drv, rng):
@@ -845,6 +940,7 @@ def run(ctx):
             rng = ctx.rng.fork(idx)
             case = gen_case(rng, idx)
             guarded(ctx, case, run_problem, ctx, drv, case)
+        run_histories(ctx, ctx.rng.fork(997))
     finally:
         drv.close()
 
@@ -862,6 +958,8 @@ def replay(ctx, rep):
             run_aliases(ctx, drv, _rng(0))
         elif "crop_case" in case:
             run_crop_case(ctx, case["crop_case"])
+        elif "history" in case:
+            run_history(ctx, case)
         elif case.get("prlx_case"):
             # the parallax sub-case is re-derived from the generating problem
             n_full = len(case["pix"])
